@@ -884,18 +884,49 @@ impl Xot {
                 "Cannot replace document node".to_string(),
             ));
         }
-        // there should always be a parent as we're not document node
-        let parent = self.parent(replaced_node).unwrap();
-        // record previous sibling
-        let previous_node = self.previous_sibling(replaced_node);
-        // remove the replaced node, use low-level remove_tree to avoid
-        // text node reconciliation and document element detection
+        let parent = self.parent(replaced_node).ok_or_else(|| {
+            Error::InvalidOperation("Cannot replace a node that has no parent".to_string())
+        })?;
+        if !self.value(replaced_node).is_normal() {
+            return Err(Error::InvalidOperation(
+                "Cannot replace attribute or namespace node".to_string(),
+            ));
+        }
+        // refuse before anything is changed
+        self.add_structure_check(Some(parent), replacing_node)?;
+        if self
+            .ancestors(replacing_node)
+            .any(|ancestor| ancestor == replaced_node)
+        {
+            return Err(Error::InvalidOperation(
+                "Cannot replace a node with itself or one of its descendants".to_string(),
+            ));
+        }
+        // the neighbours the replacing node leaves behind
+        let old_previous = self.previous_sibling(replacing_node);
+        let old_next = self.next_sibling(replacing_node);
+        // move the replacing node into place and remove the replaced node;
+        // use the low-level operations to avoid text node consolidation
+        // while the replaced node is still there
+        replacing_node.get().detach(self.arena_mut());
+        replaced_node
+            .get()
+            .checked_insert_before(replacing_node.get(), self.arena_mut())?;
         replaced_node.get().remove_subtree(self.arena_mut());
-        // now insert the replacing node
-        if let Some(previous_node) = previous_node {
-            self.insert_after(previous_node, replacing_node)?;
+        // now consolidate text nodes: where the replacing node came from
+        if old_previous != Some(replaced_node) && old_next != Some(replaced_node) {
+            self.remove_consolidate_text_nodes(old_previous, old_next);
+        }
+        // and around its new position
+        let previous = self.previous_sibling(replacing_node);
+        if self.remove_consolidate_text_nodes(previous, Some(replacing_node)) {
+            let previous = previous.unwrap();
+            self.remove_consolidate_text_nodes(Some(previous), self.next_sibling(previous));
         } else {
-            self.prepend(parent, replacing_node)?;
+            self.remove_consolidate_text_nodes(
+                Some(replacing_node),
+                self.next_sibling(replacing_node),
+            );
         }
         Ok(())
     }
